@@ -400,6 +400,53 @@ fn recip2_ref(dv: u128) -> u64 {
     q.to_u64().expect("reciprocal_2 reference fits u64")
 }
 
+/// Dense sampling of the single-limb reciprocal: one case = one batch of 4096 divisors of one of
+/// the 256 lookup-table rows (top 9 bits), drawn by a fixed xorshift sequence from (row, batch).
+/// The Newton steps absorb most one-unit errors of a table entry; the divisors for which an entry
+/// has no slack are a ~10^-5 fraction of a row, selected by the middle bits of the divisor, so a
+/// row needs ~10^6 samples (256 batches) rather than its end points.
+fn enum_recip_dense_part(part: u64, batches: u64, f: &mut dyn FnMut(&Case) -> R) -> R {
+    for row in (256u64..512).filter(|r| r % 16 == part) {
+        for b in 0..batches {
+            f(&Case::new().n(row).n(b))?;
+        }
+    }
+    Ok(())
+}
+
+fn body_recip_dense<const B: usize, const L: usize>(c: &Case, rec: &mut Rec) -> R {
+    let (row, batch) = (c.n[0], c.n[1]);
+    let mut x: u64 = (row << 32 | batch).wrapping_mul(0x9E37_79B9_7F4A_7C15) | 1;
+    rec.nontrivial(&(row, batch));
+    if batch == 0 {
+        rec.sample(|| json!({"kernel": "reciprocal (dense batch)", "table_row": row, "divisors_per_batch": 4096}));
+    }
+    rec.eval(2 * 4096);
+    for i in 0..4096u64 {
+        x ^= x << 13;
+        x ^= x >> 7;
+        x ^= x << 17;
+        // low 55 bits from the sequence; every 16th divisor has zero / all-ones low 24 bits
+        let mut low = x >> 9;
+        if i % 16 == 0 {
+            low &= !0xff_ffff;
+        } else if i % 16 == 1 {
+            low |= 0xff_ffff;
+        }
+        let dv = row << 55 | low;
+        let e = recip_ref(dv);
+        let v = d::reciprocal(dv);
+        if v != e {
+            return rec.fail("reciprocal", "value_wrong", format!("reciprocal({dv:#x}) = {v:#x} expected {e:#x} (table row {row})"));
+        }
+        let v = d::reciprocal_mg10(dv);
+        if v != e {
+            return rec.fail("reciprocal_mg10", "value_wrong", format!("reciprocal_mg10({dv:#x}) = {v:#x} expected {e:#x} (table row {row})"));
+        }
+    }
+    Ok(())
+}
+
 fn strat_2x1(_: usize) -> BoxedStrategy<Case> {
     (norm_limb(), limb(), limb(), 0u8..4)
         .prop_map(|(dv, hi, lo, k)| {
@@ -572,7 +619,7 @@ fn main() {
     }
     let spec = PropSpec {
         id: "C14",
-        rule_text: "slice-level generators: numerator/divisor lengths 0..=12 independently (one pair in eight of the `div` rule stretched to up to 40 / 20 limbs) with zero padding at the high end, divisors of every effective length with 0..63 leading zero bits, numerators from 5 classes (independent boundary-alphabet limbs; q*d+r with extreme q,d,r; copying the divisor's leading limbs with perturbed lower limbs, equal and slightly smaller top window; powers of two aligned to a limb top after the normalising shift, -1, +1, with low noise); one divisor in six (>= 2 limbs) has normalised leading 128 bits solved onto the tie of reciprocal_2's last correction step (p == d1 after the carry; vcore::recip bisection) or one beside it; complete enumeration of all numerators of 1..=4 limbs x divisors of 1..=3 limbs over {0,1,2^63,MAX-1,MAX} for algorithms::div; each specialised kernel only on its documented domain; reciprocals on all 256 table rows (start, start+1, end, end-1, 3 scattered) x 6 low limbs, enumerated, plus generated, half of the generated reciprocal_2 arguments solved onto the last correction step's tie (classes recip2:tie_*). Oracle: num-bigint / u128 quotient and remainder; floor((2^128-1)/d)-2^64 and floor((2^192-1)/d)-2^64. Non-trivial: divisor >= 2 limbs after trimming and non-zero quotient (div), >= 2 numerator limbs (n-by-1), non-zero quotient (n-by-2, n-by-m), every case for the fixed-size kernels and reciprocals (all inputs are normalised by construction); distinct by inputs. div_3x2_ref is excluded: its own doc comment says it is off by one.",
+        rule_text: "slice-level generators: numerator/divisor lengths 0..=12 independently (one pair in eight of the `div` rule stretched to up to 40 / 20 limbs) with zero padding at the high end, divisors of every effective length with 0..63 leading zero bits, numerators from 5 classes (independent boundary-alphabet limbs; q*d+r with extreme q,d,r; copying the divisor's leading limbs with perturbed lower limbs, equal and slightly smaller top window; powers of two aligned to a limb top after the normalising shift, -1, +1, with low noise); one divisor in six (>= 2 limbs) has normalised leading 128 bits solved onto the tie of reciprocal_2's last correction step (p == d1 after the carry; vcore::recip bisection) or one beside it; complete enumeration of all numerators of 1..=4 limbs x divisors of 1..=3 limbs over {0,1,2^63,MAX-1,MAX} for algorithms::div; each specialised kernel only on its documented domain; reciprocals on all 256 table rows (start, start+1, end, end-1, 3 scattered) x 6 low limbs, enumerated, plus a dense fixed sample of 2^20 divisors per table row (rule reciprocal_dense_rows, 2.7e8 single-limb reciprocals against u128 division), plus generated, half of the generated reciprocal_2 arguments solved onto the last correction step's tie (classes recip2:tie_*). Oracle: num-bigint / u128 quotient and remainder; floor((2^128-1)/d)-2^64 and floor((2^192-1)/d)-2^64. Non-trivial: divisor >= 2 limbs after trimming and non-zero quotient (div), >= 2 numerator limbs (n-by-1), non-zero quotient (n-by-2, n-by-m), every case for the fixed-size kernels and reciprocals (all inputs are normalised by construction); distinct by inputs. div_3x2_ref is excluded: its own doc comment says it is off by one.",
         assumptions: vec![
             "num-bigint and u128 division are correct (oracle)",
             "div_nxm_normalized is exercised only on the shape len(numerator)=len(divisor)+len(quotient), len(quotient)>=1, the shape used by the repository's own tests (DESIGN 4 C14)",
@@ -582,7 +629,7 @@ fn main() {
     };
     main_with(
         spec,
-        |jobs, _| {
+        |jobs, args| {
             jobs.gen("div", 0, 200_000, || strat_div(0), body_div::<0, 0>);
             jobs.enumerate("div_limb_alphabet", 0, |f| enum_div_alphabet(f), body_div::<0, 0>);
             jobs.gen("div_nx1", 0, 40_000, || strat_nx1(0), body_nx1::<0, 0>);
@@ -593,6 +640,11 @@ fn main() {
             jobs.gen("div_3x2", 0, 60_000, || strat_3x2(0), body_3x2::<0, 0>);
             jobs.gen("reciprocal", 0, 100_000, || strat_recip(0), body_recip::<0, 0>);
             jobs.fixed_list("reciprocal_table_rows", 0, |f| enum_recip(0, f), body_recip::<0, 0>);
+            // 256 rows x 256 batches x 4096 divisors = 2.7e8 reciprocals, split into 16 jobs
+            let batches: u64 = if args.tier == "thorough" { 2048 } else { 256 };
+            for part in 0..16u64 {
+                jobs.fixed_list("reciprocal_dense_rows", 0, move |f| enum_recip_dense_part(part, batches, f), body_recip_dense::<0, 0>);
+            }
         },
         |_| Map::new(),
     );
